@@ -221,4 +221,51 @@ theorem read_consumes (st : St) (n : Nat) (r : Except RErr (List Nat)) (st' : St
         obtain ⟨k, hk, hs⟩ := fill_consumes _ _ _ _ heq
         exact ⟨k, by omega, hs⟩
 
+/-- The first `k` items `Utf16Decoder` yields are determined by the first `2 k`
+code units (4 k bytes): whatever follows them, and whether the input ends in a
+stray byte, does not matter.  (Every item takes one or two units.) -/
+theorem dec16_take_prefix (k : Nat) (us a b : List Nat) (pos : Nat) (ta tb : Bool)
+    (h : 2 * k ≤ us.length) :
+    (dec16 (us ++ a) pos ta).take k = (dec16 (us ++ b) pos tb).take k := by
+  induction k generalizing us pos with
+  | zero => simp
+  | succ k ih =>
+    match us, h with
+    | u :: t :: rest', h =>
+      have hlen : 2 * k ≤ rest'.length := by simp at h; omega
+      have hlen1 : 2 * k ≤ (t :: rest').length := by simp; omega
+      rw [dec16.eq_def (u :: t :: rest' ++ a), dec16.eq_def (u :: t :: rest' ++ b)]
+      simp only [List.cons_append]
+      by_cases h1 : u < 0xD800 ∨ 0xE000 ≤ u
+      · simp only [h1, if_true, List.take_succ_cons]
+        congr 1
+        exact ih (t :: rest') (pos + 2) hlen1
+      · simp only [h1, if_false]
+        by_cases h2 : 0xDC00 ≤ u
+        · simp only [h2, if_true, List.take_succ_cons]
+          congr 1
+          exact ih (t :: rest') (pos + 2) hlen1
+        · simp only [h2, if_false]
+          by_cases h3 : 0xDC00 ≤ t ∧ t ≤ 0xDFFF
+          · simp only [h3, and_self, if_true, List.take_succ_cons]
+            congr 1
+            exact ih rest' (pos + 4) hlen
+          · simp only [h3, if_false, List.take_succ_cons]
+            congr 1
+            exact ih (t :: rest') (pos + 2) hlen1
+
+/-- …and the first `k` items of `Utf32Decoder` by the first `k` units. -/
+theorem dec32_take_prefix (k : Nat) (us a b : List Nat) (pos : Nat) (ta tb : Bool)
+    (h : k ≤ us.length) :
+    (dec32 (us ++ a) pos ta).take k = (dec32 (us ++ b) pos tb).take k := by
+  induction k generalizing us pos with
+  | zero => simp
+  | succ k ih =>
+    match us, h with
+    | u :: rest, h =>
+      have hlen : k ≤ rest.length := by simp at h; omega
+      simp only [List.cons_append, dec32, List.take_succ_cons]
+      congr 1
+      exact ih rest (pos + 4) hlen
+
 end Xt.Encoding
